@@ -49,7 +49,7 @@ def random_style(rng, mol):
     st.extra_bond_kw = rng.choice([0, 0.5, 1.5])
     st.explicit_defaults = rng.choice([0, 0, 0.3, 1.0])
     st.dt_symbols = rng.random() < 0.6
-    st.split = rng.choice(["none", "random", "random", "multi"])
+    st.split = rng.choice(["none", "random", "random", "multi", "kw"])
     st.split_lines = rng.choice(["atoms+bonds", "all", "atoms", "bonds", "counts"])
     st.star = (rng.random() < 0.25 or mol.cls == "M11") and nb > 0
     st.star_all = mol.cls == "M11" and rng.random() < 0.7
